@@ -273,6 +273,20 @@ c4 = new_ctx({"r": "{{r}}", "p": "{{q}}", "q": "{{p}}", "deep": "{{deep|{{{1|}}}
 for page in ("{{r}}", "{{p}}", "{{deep}}", "{{r}} {{r}} {{p}}", "{{an}}", "{{ad}}"):
     expand_checked(c4, page, "core:Wtp.expand", {"page": page, "library": "r->r, p<->q, deep->deep"}, expect_error=True)
 
+# ---- (3a') redirects among templates and pages: cycles, self-redirects, rings, chains, dangling targets
+c6 = new_ctx({"a": "A{{{1|}}}"})
+for src_, dst_ in (("ra", "rb"), ("rb", "ra"), ("rs", "rs"), ("r1", "r2"), ("r2", "r3"), ("r3", "r1"), ("rd1", "rd2"), ("rd2", "a"),
+                   ("rx", "nosuch")):
+    c6.add_page("Template:" + src_, 10, None, redirect_to="Template:" + dst_)
+for src_, dst_ in (("Pa", "Pb"), ("Pb", "Pa"), ("Ps", "Ps"), ("Pc", "Template:ra")):
+    c6.add_page(src_, 0, None, redirect_to=dst_)
+c6.db_conn.commit()
+for page in ("{{ra}}", "{{rs}}", "{{r1}} {{r2}}", "{{rd1|x}}", "{{rx}}", "{{:Pa}}", "{{:Ps}} {{:Pc}}", "{{PAGESIZE:Pa}} {{PAGESIZE:Ps}}",
+             "{{#if:x|{{ra}}|n}}", "{{a|{{rs}}}}", "{{#ifexist:Template:ra|y|n}} {{#ifexist:Pa|y|n}}", "{{#ifeq:{{r1}}|x|s|d}}"):
+    expand_checked(c6, page, "core:Wtp.expand", {"page": page, "library": "redirect cycles ra<->rb, rs->rs, r1->r2->r3->r1, Pa<->Pb"},
+                   expect_error=False)
+    distinct.add(("redirects", page))
+
 # ---- (3b) option combinations, several expansions per started page
 c5 = new_ctx({"a": "A{{{1|}}}", "pf": "{{#if:{{{1|}}}|y|n}}", "inv": "{{#invoke:m|f}}"},
              parser_function_aliases={"#invoque": "#invoke"})
